@@ -27,9 +27,9 @@ for d in sorted(glob.glob('/verif/seeded/C*-*')):
     rows.append("| %s | %s | %s | %s |" % (sid, what, '; '.join(det) or 'not run yet', ("missed by %s at first; %s" % (fp['missed_by'], fp['strengthened'])) if fp else ""))
 with open('/verif/seeded/TABLE.md', 'w') as f:
     f.write("# Seeded changes and the checks that report them\n\n")
-    f.write("`<prop>-mN`: first wave, `-bN`: second wave, `-cN`: third wave, `-dN`: fourth wave, `-eN`: fifth wave (each by a fresh sub-agent that saw only the property text).\n")
+    f.write("`<prop>-mN`: first wave, `-bN`: second wave, `-cN`: third wave, `-dN`: fourth wave, `-eN`: fifth wave, `-fN`: sixth wave (each by a fresh sub-agent that saw only the property text).\n")
     f.write("Every change compiles, passes the 46 tests of the repository, and fails its own demo (confirmed by tools/confirm_mutant.sh).\n")
-    f.write("Results are those of the last run of `bin/mutant` on /repo (tools/rerun_seeded.sh).\n\n")
+    f.write("Results are those of the last run of `bin/mutant` on /repo (tools/rerun_seeded.sh); the sixth wave was run with `bin/devmutantN` on scratch worktrees of /repo (same check code, several changes side by side).\n\n")
     f.write("%d changes; %d reported by the check of the property they were written against; %d were missed by that check when it first ran against them (last column: what was strengthened).\n\n" % (stats["total"], stats["detected_by_own"], stats["first_pass_missed"]))
     f.write("| id | change (from the author's README) | checks run against it | first pass |\n|---|---|---|---|\n")
     f.write('\n'.join(rows) + '\n')
